@@ -23,7 +23,7 @@ INFO = {
     "token once) are checked for termination and span discipline.",
     "bounds": {"quick": {"N": 4, "grammars": 10}, "thorough": {"N": 5, "grammars": 30}},
     "outside": "inputs longer than N; custom strategies other than the two listed; lexically overlapping terminals",
-    "assumptions": ["get_context stubbed; realize-atomic marks", "termination = step budget + 60 s per-path watchdog"],
+    "assumptions": ["get_context stubbed; realize-atomic marks", "termination = step budget + 60 s (CPU) per-path watchdog"],
 }
 
 MANIFEST = {
